@@ -202,6 +202,7 @@ def unhinted(run, fx):
                 if 'glyph_advance_x' in txt and 'glyph_advance_y' in txt and '&&' in txt:
                     ok = True
                     run.held('UNHINTED', 'm_hinted definition', f.where(), txt)
+                hinted_tests_handle(run, f, e, 'UNHINTED')
     if not ok:
         run.violated('UNHINTED', 'm_hinted definition', fc[0].where() if fc else '', 'Font::m_hinted is no longer `appFontHandle && ops && (advance_x || advance_y)`')
     ih = fx.one('graphite2::Font::isHinted')
@@ -210,6 +211,27 @@ def unhinted(run, fx):
         run.held('UNHINTED', 'isHinted', ih.where(), 'returns m_hinted', False)
     else:
         run.violated('UNHINTED', 'isHinted', ih.where(), 'Font::isHinted returns %s' % rets)
+
+
+def hinted_tests_handle(run, f, e, rule):
+    """a font is hinted only when the application gave a handle: the conjunct of m_hinted's initialiser that tests the handle tests the
+    caller's value, not a member that was given a never-null default (`m_appFontHandle(appFontHandle ? appFontHandle : this)`): with
+    that member the test is always true and a font made with callbacks but no handle calls them with the Font object as the handle"""
+    inits = {x.get('field'): x for _, x in f.elements() if x['k'] == 'Init' and x.get('field') and x.get('init') is not None}
+    dead = []
+    for n in f.walk(e['init']):
+        if n['k'] == 'MemberExpr' and n.get('dk') == 'Field' and n.get('d') in inits and n['d'] != e['field']:
+            iv = f.strip_all_casts(f.N(inits[n['d']]['init']))
+            if iv['k'] == 'ConditionalOperator' and any(f.strip_all_casts(f.N(a))['k'] == 'CXXThisExpr' for a in iv['c'][1:]):
+                dead.append((n, iv))
+    inst = 'm_hinted tests the caller\'s handle'
+    if dead:
+        n, iv = dead[0]
+        run.violated(rule, inst, f.loc(e), 'the initialiser of m_hinted tests %s, which the constructor initialised as `%s`: it is never null, so the test the font relies on to stay '
+                     'unhinted without an application handle is always true (gr_make_font_with_ops(ppm, NULL, ops, face) now calls ops->glyph_advance_x with the gr_font itself as the handle)'
+                     % (f.render(n), f.render(iv)))
+    else:
+        run.held(rule, inst, f.loc(e), 'no never-null member among the tested values')
 
 
 def nocallback(run, E, reach, cuts):
